@@ -94,6 +94,33 @@ class OneGeneric(tuple):
     def __vf_len__(self):
         raise EngineUnsupported("len of a generic operand window")
 
+    def __vf_list__(self):
+        return OneGenericList(self)
+
+    def __vf_tuple__(self):
+        return self
+
+
+class OneGenericList(list):
+    """list(children) of a generic operand window: still 'the i-th operand'"""
+    __vf_symbolic__ = True
+
+    def __init__(self, src):
+        list.__init__(self, [src[0]])
+        self.vf_index = src.vf_index
+
+    def __vf_enumerate__(self, *a):
+        return iter([(self.vf_index, self[0])])
+
+    def __vf_len__(self):
+        raise EngineUnsupported("len of a generic operand window")
+
+    def __vf_list__(self):
+        return OneGenericList(self)
+
+    def __vf_tuple__(self):
+        return OneGeneric(self[0], self.vf_index)
+
 
 def visit_cases():
     cases = []
